@@ -93,8 +93,13 @@ CHECKS['C14'] = {
     'note': 'Trusted: HashMap entry API shell, subscribers opaque. Not covered by proof: actor loop ordering, concurrent clients, shutdown, the action arms; see coverage.not_covered.',
     'technique': TECH,
 }
+CHECKS['C01'] = {
+    'text': 'Split claim. Proved for all inputs on the real text (Verus): the ingredients a session is built from - put is the newest-wins/prefix-deletion merge step and its fold is an order-independent join (U-store, L-join); get_first, get_range (incl. wrap-around ranges) and get_fingerprint return exactly the ordered-map definition (U-first, U-range); the validate callback accepts exactly the valid entries (U-valid-recon). NOT proved: the message-level algorithm process_message is outside both verifiers; the session-level statement (termination, both sides end with the join, empty second session, mirrored counters) is decided only by a bounded stand-in that runs complete sessions through the real Replica API between pairs of small replica states (labelled bounded, not counted in obligations/discharged).',
+    'design_ref': 'DESIGN.md sections 0.3, 0.4 (C01)',
+    'note': 'process_message itself is unverified (bounded executions only); default SyncConfig only; redb-backed store only.',
+    'technique': TECH + '; bounded stand-in for process_message',
+}
 NOT_APPLICABLE = {
-    'C01': 'whole-session convergence of the generic async reconciliation routine (GAT iterators, three closures, FuturesOrdered) is a protocol proof over message histories, outside function contracts; Verus cannot take process_message, Kani cannot run the redb store or Bytes',
     'C04': 'statement over interleavings/histories of 2..5 replicas with lossy gossip and restarts; no function or data structure whose contract expresses it',
     'C06': 'needs crash points, redb recovery semantics and wall-clock commit placement; none of these is an input of any function, redb is a trusted dependency',
 }
